@@ -398,7 +398,7 @@ pub fn main(tier: Option<&str>) {
         "value pools per record kind (chunks of 9(14) boundary sizes, 21 scratchpads, 10 transactions and their vectors, 12 registers, \
          4 proofs and every (proof, value) pairing), every Request/Response variant over a 9-address pool with boundary field values; \
          each is encoded, decoded, compared, its prefix checked against the pinned tag table and its bytes against the committed \
-         golden file; then every byte string of length <=2 (all 65,792), every sequence <=3(4) over 24 marker bytes, every well-formed MessagePack body of 9 other shapes (explicit address next to the content, map, nesting) behind every kind's header, every kept record encoding behind 10 other MessagePack spellings of its header, and every truncation \
+         golden file; every sequence of <=3(4) encode calls on one thread over 5 encodable and 4 unencodable values (each call must return what the value returns alone); then every byte string of length <=2 (all 65,792), every sequence <=3(4) over 24 marker bytes, every well-formed MessagePack body of 9 other shapes (explicit address next to the content, map, nesting) behind every kind's header, every kept record encoding behind 10 other MessagePack spellings of its header, and every truncation \
          and single-byte substitution of every encoding above is fed to all 11 decoders; whatever a record decoder returns must be the decoding of the bytes behind the 2-byte prefix. Non-trivial: any decode input longer than the header.",
     );
     run.assume("wire codecs are the ones the code uses: rmp-serde for records, cbor4ii (libp2p request-response cbor codec) for messages");
@@ -503,6 +503,74 @@ pub fn main(tier: Option<&str>) {
     }
     run.extra("pool_sizes", json!({"requests": reqs.len(), "responses": resps.len(), "encodings_mutated": encodings.len()}));
     run.sample(json!({"message-roundtrip": format!("{:?}", reqs[3])}));
+
+    // the encoder is a function of its argument: every sequence of <=3(4) encode calls on one thread over a pool of encodable
+    // values of every kind and of values whose serialisation fails midway (a quote dated before the epoch, which serde refuses,
+    // behind a valid header and a partly written body) — every call must return what that value returns when encoded alone
+    {
+        let mut old_proof = proofs_v[2].clone();
+        old_proof.peer_quotes[1].1.timestamp = UNIX_EPOCH - Duration::from_secs(1);
+        let c0 = chunks(false)[1].clone();
+        let s0 = scratchpads()[0].clone();
+        let t0 = txs[0].clone();
+        let r0 = registers()[1].clone();
+        let p1 = proofs_v[1].clone();
+        type Enc = Box<dyn Fn() -> Result<Vec<u8>, String> + Send + Sync>;
+        fn enc<T: Serialize + Send + Sync + 'static>(v: T, k: RecordKind) -> Enc {
+            Box::new(move || try_serialize_record(&v, k).map(|b| b.to_vec()).map_err(|e| format!("{e:?}")))
+        }
+        let pool: Vec<(&str, Enc)> = vec![
+            ("chunk", enc(c0.clone(), RecordKind::Chunk)),
+            ("scratchpad", enc(s0.clone(), RecordKind::Scratchpad)),
+            ("transactions", enc(vec![t0.clone()], RecordKind::Transaction)),
+            ("register", enc(r0.clone(), RecordKind::Register)),
+            ("proof+chunk", enc((p1.clone(), c0.clone()), RecordKind::ChunkWithPayment)),
+            ("UNENCODABLE proof+chunk", enc((old_proof.clone(), c0.clone()), RecordKind::ChunkWithPayment)),
+            ("UNENCODABLE proof+scratchpad", enc((old_proof.clone(), s0.clone()), RecordKind::ScratchpadWithPayment)),
+            ("UNENCODABLE proof+transaction", enc((old_proof.clone(), t0.clone()), RecordKind::TransactionWithPayment)),
+            ("UNENCODABLE proof+register", enc((old_proof.clone(), r0.clone()), RecordKind::RegisterWithPayment)),
+        ];
+        // each value alone, on a thread of its own (no earlier call on that thread)
+        let alone: Vec<Result<Vec<u8>, String>> = pool
+            .iter()
+            .map(|(_, f)| std::thread::scope(|sc| sc.spawn(|| catch(|| f()).unwrap_or_else(|p| Err(format!("panic: {p}")))).join().unwrap()))
+            .collect();
+        for (i, (name, _)) in pool.iter().enumerate() {
+            if name.starts_with("UNENCODABLE") != alone[i].is_err() {
+                run.violation("roundtrip", "encode-alone", format!("encoding {name} alone gave {:?}", alone[i].as_ref().map(|b| b.len())), json!({"op":"encode-sequence","sequence":[name]}));
+            }
+        }
+        let idx: Vec<u8> = (0..pool.len() as u8).collect();
+        enumerate::sequences(&idx, if thorough { 4 } else { 3 }, |seq| {
+            if seq.len() < 2 {
+                return;
+            }
+            run.case(format!("encode-sequence:{seq:?}").as_bytes(), true);
+            // a thread of its own per sequence: whatever an encoder keeps per thread starts empty
+            std::thread::scope(|sc| {
+                sc.spawn(|| {
+            for (pos, i) in seq.iter().enumerate() {
+                let got = catch(|| (pool[*i as usize].1)()).unwrap_or_else(|p| Err(format!("panic: {p}")));
+                let same = match (&got, &alone[*i as usize]) {
+                    (Ok(a), Ok(b)) => a == b,
+                    (Err(_), Err(_)) => true,
+                    _ => false,
+                };
+                if !same {
+                    let names: Vec<&str> = seq.iter().map(|j| pool[*j as usize].0).collect();
+                    run.violation(
+                        "encoder-is-a-function",
+                        if pool[*i as usize].0.starts_with("UNENCODABLE") { "unencodable-value" } else { "after-a-failed-encode" },
+                        format!("call {pos} of the sequence {names:?} returned {:?}; the same value encoded alone gives {:?}", got.as_ref().map(|b| hex::encode(&b[..b.len().min(6)])), alone[*i as usize].as_ref().map(|b| hex::encode(&b[..b.len().min(6)]))),
+                        json!({"op":"encode-sequence","sequence":names,"position":pos}),
+                    );
+                    break;
+                }
+            }
+                });
+            });
+        });
+    }
 
     // golden bytes
     let gp = golden_path(&run);
